@@ -71,6 +71,18 @@ def large_cases(which):
         # the same groups interleaved (records of different groups alternate)
         inter = sorted(rows, key=lambda r: (rows.index(r) % 3, r[0])) if False else [r for k in range(3) for i, r in enumerate(rows) if i % 3 == k]
         out.append({'A': inter, 'B': None, 'a_names': None, 'b_names': None, 'q': {'type': 'select', 'items': items, 'group': [_f('a', 0)], 'join': None}})
+    elif which == 'wide-header':
+        # tables with 25 / 101 named columns: every index spelling of a two- and three-digit column (a10, a20, a[10], a100, a101, b10 ...)
+        for width in (25, 101):
+            names = ['n%d' % (i + 1) for i in range(width)]
+            rows = [['r%dc%d' % (r, c + 1) for c in range(width)] for r in range(3)]
+            idxs = [0, 8, 9, 10, 18, 19, 20, 24] + ([98, 99, 100] if width > 100 else [])
+            items = [{'k': 'expr', 'e': qgen.field_expr('a', i, sp, names)} for i in idxs for sp in ('aN', 'a[N]')]
+            out.append({'A': rows, 'B': None, 'a_names': names, 'b_names': None, 'q': {'type': 'select', 'items': items, 'join': None}})
+            bnames = ['m%d' % (i + 1) for i in range(width)]
+            jitems = [{'k': 'expr', 'e': qgen.field_expr('b', i, 'aN', bnames)} for i in idxs] + [{'k': 'expr', 'e': qgen.field_expr('a', 9, 'aN', names)}, {'k': 'expr', 'e': qgen.field_expr('a', 9, 'a.n', names)}]
+            join = {'kind': 'JOIN', 'pairs': [{'l': {'f': {'py': 'a10', 'js': 'a10', 'idx': 9}}, 'r': {'f': {'py': 'b10', 'js': 'b10', 'idx': 9}}, 'eq': '==', 'swap': False}], 'table': 'b', 'and': 'and'}
+            out.append({'A': rows, 'B': [list(r) for r in rows], 'a_names': names, 'b_names': bnames, 'q': {'type': 'select', 'items': jitems, 'join': join}})
     elif which == 'join':
         A2 = table(400)
         B = [['v%d' % (i % 40), 'b%d' % i] for i in range(900)]
